@@ -5,7 +5,8 @@
    the empty list included); the statements hold for every such list, with no length bound.
    `vm_for_each`, `load_char`, `byte_len`, `char_len` are the VM's three code paths over the
    BYTES of the string (Model/Utf8.v). *)
-From Aelys Require Import Base.Tactics Model.Utf8 Proofs.Utf8Proofs.
+From Aelys Require Import Base.Tactics Extracted.Utf8Select Model.Utf8 Model.Utf8Natives Model.Selection
+                          Proofs.Utf8Proofs Proofs.Utf8NativesProofs.
 Local Open Scope N_scope.
 
 (* The iteration theorems are stated for the StringForLoop path (vm_for_each SelString).  For
@@ -92,6 +93,82 @@ Theorem C20_iter_yields_any_selection : forall k cs, all_valid cs ->
   vm_for_each k (utf8 cs)
   = {| items := map encode cs; final_off := byte_len (utf8 cs); finished := true |}.
 Proof. exact iter_yields_any_lemma. Qed.
+
+(* ---- opcode selection (the dimension "whatever the compiler selects"): for every static type
+   a string-valued operand can have (string, Dynamic, unresolved variable) the backend's match
+   (regenerated from looping.rs / array.rs) selects a loop opcode whose VM arm has a string case
+   (regenerated from the dispatch arms) and that case yields the characters; the selected index
+   opcode and the dynamic len opcode have a string case too.  The optimisation level is not an
+   input of the selection. *)
+Theorem C20_selection_total_on_strings : forall t cs, In t string_static_types -> all_valid cs ->
+  compiled_for_each t (utf8 cs)
+  = Some {| items := map encode cs; final_off := byte_len (utf8 cs); finished := true |}
+  /\ compiled_index_ok t = true /\ dynamic_len_handles_string = true.
+Proof. exact selection_lemma. Qed.
+
+(* ---- the string natives that count or slice by characters agree with the iteration *)
+(* char_at(s, i) is the same lookup as s[i] (for EVERY byte string), "" where s[i] is an error *)
+Theorem C20_char_at_is_index : forall s (i : Z),
+  nat_char_at s i = match load_char s i with LoadOk it => it | LoadIndexOutOfBounds => [] end.
+Proof. exact char_at_load_lemma. Qed.
+
+Theorem C20_char_at_is_nth_item : forall cs (i : Z), all_valid cs ->
+  nat_char_at (utf8 cs) i
+  = if ((0 <=? i) && (i <? Z.of_nat (length cs)))%Z
+    then nth (Z.to_nat i) (items (vm_for_each SelString (utf8 cs))) [] else [].
+Proof. exact char_at_item_lemma. Qed.
+
+(* substr(s, a, n) is the concatenation of the items a .. a+n-1 (clipped at the end), its
+   characters are those scalars, its character length min(n, |cs| - a); "" for a negative argument *)
+Theorem C20_substr_is_item_slice : forall cs (a n : Z), all_valid cs -> (0 <= a)%Z -> (0 <= n)%Z ->
+  chars (nat_substr (utf8 cs) a n) = firstn (Z.to_nat n) (skipn (Z.to_nat a) cs)
+  /\ nat_substr (utf8 cs) a n
+     = concat (firstn (Z.to_nat n) (skipn (Z.to_nat a) (items (vm_for_each SelString (utf8 cs)))))
+  /\ char_len (nat_substr (utf8 cs) a n) = Nat.min (Z.to_nat n) (length cs - Z.to_nat a).
+Proof. exact substr_lemma. Qed.
+
+Theorem C20_substr_negative : forall s (a n : Z), (a < 0 \/ n < 0)%Z -> nat_substr s a n = [].
+Proof. exact substr_negative_lemma. Qed.
+
+(* chars(s) and split(s, "") are the items joined by a newline *)
+Theorem C20_chars_native_is_items : forall cs, all_valid cs ->
+  nat_chars (utf8 cs) = join [10] (items (vm_for_each SelString (utf8 cs)))
+  /\ nat_split_empty (utf8 cs) = nat_chars (utf8 cs).
+Proof. exact chars_native_lemma. Qed.
+
+(* reverse(s) reverses the characters (not the bytes): items reversed, both lengths kept, involutive *)
+Theorem C20_reverse_by_characters : forall cs, all_valid cs ->
+  chars (nat_reverse (utf8 cs)) = rev cs
+  /\ items (vm_for_each SelString (nat_reverse (utf8 cs))) = rev (items (vm_for_each SelString (utf8 cs)))
+  /\ char_len (nat_reverse (utf8 cs)) = char_len (utf8 cs)
+  /\ byte_len (nat_reverse (utf8 cs)) = byte_len (utf8 cs)
+  /\ nat_reverse (nat_reverse (utf8 cs)) = utf8 cs.
+Proof. exact reverse_lemma. Qed.
+
+(* pad_left / pad_right pad to a width counted in characters with the first character of the
+   pad string (space when it is empty) *)
+Theorem C20_pad_counts_characters : forall cs ps (w : Z), all_valid cs -> all_valid ps ->
+  let k := pad_count (utf8 cs) w in
+  let pc := pad_char (utf8 ps) in
+  chars (nat_pad_left (utf8 cs) w (utf8 ps)) = repeat pc k ++ cs
+  /\ chars (nat_pad_right (utf8 cs) w (utf8 ps)) = cs ++ repeat pc k
+  /\ char_len (nat_pad_left (utf8 cs) w (utf8 ps)) = Nat.max (length cs) (Z.to_nat w)
+  /\ char_len (nat_pad_right (utf8 cs) w (utf8 ps)) = Nat.max (length cs) (Z.to_nat w)
+  /\ pc = match ps with c :: _ => c | [] => 32 end.
+Proof. exact pad_lemma. Qed.
+
+(* repeat(s, n): characters and both lengths multiply *)
+Theorem C20_repeat_multiplies : forall cs (n : Z), all_valid cs ->
+  chars (nat_repeat (utf8 cs) n) = concat (repeat cs (Z.to_nat n))
+  /\ char_len (nat_repeat (utf8 cs) n) = (Z.to_nat n * length cs)%nat
+  /\ byte_len (nat_repeat (utf8 cs) n) = (Z.to_nat n * byte_len (utf8 cs))%nat.
+Proof. exact repeat_lemma. Qed.
+
+(* byte_at(s, i) is a byte for exactly the indices below the BYTE length, -1 elsewhere *)
+Theorem C20_byte_at_range : forall s (i : Z),
+  ((0 <= i < Z.of_nat (byte_len s))%Z -> nat_byte_at s i = Z.of_N (nth (Z.to_nat i) s 0))
+  /\ ((i < 0 \/ Z.of_nat (byte_len s) <= i)%Z -> nat_byte_at s i = (-1)%Z).
+Proof. exact byte_at_lemma. Qed.
 
 (* non-vacuity: "cafe" + combining acute, an astral emoji, NUL, and every width boundary *)
 Example C20_nonvacuous :
